@@ -84,6 +84,9 @@ def cases(tier, seed):
             yield {'conv': name, 'fault': 'disconnect-after-prefix', 'at': k}
         for i in range(len(items) + 1):
             yield {'conv': name, 'fault': 'stop-flag', 'at': i}
+            for d in (1, 2, 3):
+                # ... and at the next loop heads that are not quiescent (e.g. before the connection indication has been handled)
+                yield {'conv': name, 'fault': 'stop-flag', 'at': i, 'dev': d}
             yield {'conv': name, 'fault': 'stop-call', 'at': i}
             yield {'conv': name, 'fault': 'silence', 'at': i}
             for d in range(1, 8):
@@ -92,6 +95,10 @@ def cases(tier, seed):
             yield {'conv': name, 'fault': 'send-fails', 'at': i}
             yield {'conv': name, 'fault': 'silence-while-other-association-runs', 'at': i}
             yield {'conv': name, 'fault': 'local-error', 'at': i}
+            if i < len(items) and items[i][0] == 'bytes':
+                for cut in (1, 6, len(items[i][1]) - 1):
+                    if 0 < cut < len(items[i][1]):
+                        yield {'conv': name, 'fault': 'silence-after-partial-pdu', 'at': i, 'cut': cut}
             yield {'conv': name, 'fault': 'chatter', 'at': i}
 
 
@@ -158,6 +165,10 @@ def run_case(case):
             hist += [('tick', 4.0), ('other', 'ac', other), ('tick', 4.0), ('tick', 2.5)]
         elif fault == 'reset':
             hist.append(('reset',))
+        elif fault == 'silence-after-partial-pdu':
+            # the peer sends the beginning of its next PDU and then nothing: bytes of an incomplete PDU are not a PDU,
+            # where ARTIM is armed it must still expire
+            hist += [('bytes', items[at][1][:case['cut']]), ('tick', 4.0), ('tick', 4.0), ('tick', 2.5)]
         elif fault == 'chatter':
             # where ARTIM is armed the peer does not go silent but keeps sending association requests and junk, more often
             # than ARTIM: from the first of them on (at the latest) the provider is in Sta13, where nothing restarts the timer
@@ -174,7 +185,11 @@ def run_case(case):
         else:
             hist.append(('close',))
             dev = {case['dev']: True}
-    guard = (lambda pos: hist[pos][0] == 'close') if dev else None
+        if fault == 'stop-flag' and case.get('dev'):
+            # loop heads are counted over the whole execution: find the first non-quiescent head after the prefix by a dry run
+            dry = e2.Env(role, hist[:-1], budget=3000).run()
+            dev = {dry.nonquiescent_heads + case['dev'] - 1 if hist[:-1] else case['dev']: True}
+    guard = (lambda pos: hist[pos][0] in ('close', 'kill')) if dev else None
     env = e2.Env(role, hist, deviations=dev, dev_guard=guard, budget=3000).run()
     fin = env.final
     viol = []
@@ -195,6 +210,9 @@ def run_case(case):
     if fin['status'] in ('raised', 'hang', 'blocked-recv'):
         viol.append((sig + ':loop-%s:%s' % (fin['status'], (fin['exc'] or '').split('(')[0]), 'provider loop %s: %s (%s)' % (fin['status'], fin['exc'], where)))
         return {'viol': viol, 'case': case, 'key': None}
+    if fin.get('exit_sock') == 'open':
+        viol.append((sig + ':exit-event-before-close', 'the loop-exited event was set while the transport was still open: kill() can return (and the caller go on) '
+                     'before the connection is released (%s)' % where))
     if not fin['thread_flag']:
         viol.append((sig + ':exit-event-not-set', 'run() ended but the loop-exited event is not set: kill() would wait forever (%s)' % where))
     inds = [x for st in env.steps for x in st['inds']]
@@ -223,6 +241,11 @@ def run_case(case):
         if armed and (fin['state'] != 0 or fin['sock'] == 'open' or fin['timer']):
             viol.append((sig + ':artim-not-honoured', 'ARTIM armed, peer silent for 10.5 s while another association of the same process was set up and released: '
                          'provider in Sta%d, transport %s, timer %s (%s)' % (fin['state'] + 1, fin['sock'], 'running' if fin['timer'] else 'not running', where)))
+    elif fault == 'silence-after-partial-pdu':
+        armed = _model_armed(role, hist[:-4])
+        if armed and (fin['state'] != 0 or fin['sock'] == 'open' or fin['timer']):
+            viol.append((sig + ':artim-not-honoured', 'ARTIM armed; the peer sent the first %d bytes of a PDU and then stayed silent for 10.5 s: provider in Sta%d, '
+                         'transport %s, timer %s (%s)' % (case['cut'], fin['state'] + 1, fin['sock'], 'running' if fin['timer'] else 'not running', where)))
     elif fault == 'chatter':
         armed = _model_armed(role, hist[:-7])
         if armed and (fin['state'] != 0 or fin['sock'] == 'open' or fin['timer']):
@@ -244,6 +267,8 @@ def run_case(case):
         elif st_before is not None and fin['state'] != st_before:
             viol.append((sig + ':state-changed-by-time', 'time alone moved the provider from Sta%d to Sta%d (%s)' % (st_before + 1, fin['state'] + 1, where)))
     elif fault == 'stop-flag':
+        if fin['sock'] == 'open':
+            viol.append((sig + ':transport-left-open', 'the provider was stopped in Sta%d and run() returned with the transport still open (%s)' % (fin['state'] + 1, where)))
         if fin['status'] != 'returned' and 'killed-flag-seen' not in [l for st in env.steps for l in st['log']] + env.cur['log']:
             viol.append((sig + ':did-not-stop', 'stop flag set but run() did not return at the next loop head (%s)' % where))
     elif fault == 'stop-call':
@@ -251,7 +276,7 @@ def run_case(case):
         st_before = env.steps[len(hist) - 1]['state'] if len(hist) - 1 < len(env.steps) else None
         if logs and st_before is not None and logs[0][1] != (st_before == 0):
             viol.append((sig + ':stop-result', 'stop() returned %r in Sta%d (%s)' % (logs[0][1], st_before + 1, where)))
-    key = (name, fault, at, case.get('dev'))
+    key = (name, fault, at, case.get('dev'), case.get('cut'))
     return {'viol': viol, 'case': case if viol else None, 'key': key,
             'sample': case if (at, fault) in ((7, 'disconnect-after-prefix'), (3, 'silence')) and name == 'ac-echo' else None}
 
